@@ -52,7 +52,7 @@ def _wrun(ob):
     H = _W['H']; E = _W['E']
     E.queries = 0; E.solver_time = 0.0; E.total_steps = 0; E.unknowns = 0
     t0 = time.time()
-    limit = ob.get('timeout_s', 240 if _W['tier'] == 'quick' else 1800)
+    limit = ob.get('timeout_s', 600 if _W['tier'] == 'quick' else 1800)
     signal.signal(signal.SIGALRM, _alarm); signal.alarm(limit)
     try:
         r = H.run(E, ob)
